@@ -211,6 +211,11 @@ def gen(seed, i):
         _reduce_to_low_dof(rng, net)
         net.params.pop("_extra", None)
         feats = ["low-dof"]
+    if any(c.kind == "vectors" for c in net.clusters) and rng.uniform() < 0.6:
+        # coordinate differences first: they index the x of both end points before any y, so x and y of a point
+        # are not neighbours in the list of unknowns (ellipses, covariances and their labels must not assume it)
+        net.clusters = [c for c in net.clusters if c.kind == "vectors"] + [c for c in net.clusters if c.kind != "vectors"]
+        feats = feats + ["vectors-first"]
     return rng, net, feats
 
 
